@@ -70,6 +70,14 @@ def s4(chk: Check, proj: Project, m) -> None:
             chk.ob("S4", "component_media:_setup_lazy_media_resolve:getter-bound-to-own-class", m.loc(g), okc, f"the getter resolves against `{cls_p}`")
     r = m.func("_resolve_media")
     chk.analysed(fkey(m, r))
+    # the "library base class" test must identify the class exactly (import path / identity), not by its bare name
+    nm = [x for x in ast.walk(r) if isinstance(x, ast.Compare) and any(isinstance(y, ast.Attribute) and y.attr in ("__name__", "__qualname__") for y in ast.walk(x.left))
+          and all(isinstance(c, ast.Constant) and isinstance(c.value, str) and "." not in c.value for c in x.comparators)]
+    full = [x for x in ast.walk(r) if isinstance(x, ast.Compare) and any(isinstance(c, ast.Constant) and isinstance(c.value, str) and c.value.count(".") >= 2 and c.value.endswith(".Component") for c in x.comparators)
+            or (isinstance(x, ast.Compare) and isinstance(x.ops[0], ast.Is) and norm(x.comparators[0]) == "Component")]
+    chk.ob("S4", "component_media:_resolve_media:base-class-identified-exactly", m.loc(nm[0]) if nm else m.loc(r), bool(full) and not nm,
+           "the skip for the library's own base class compares the full import path (or identity)" if full and not nm else
+           f"`{short(nm[0]) if nm else 'no exact test'}` recognises the library base class by its bare name: a user class that is also called `Component` (a project-wide base) is marked resolved without its template_file / js_file / css_file ever being loaded")
     cfg = CFG(r)
     rec = params(r)[1]
     stores = [st for st in stmts(r) if isinstance(st, ast.Assign) and norm(st.targets[0]) == f"{rec}.resolved" and norm(st.value) == "True"]
